@@ -92,6 +92,21 @@ CLAIMED.update({
     technique="contract-based deductive verification over uninterpreted cryptographic primitives, z3"),
 })
 
+CLAIMED.update({
+ "C04": dict(category="proof",
+    text="IdGenerator.next stays in 1..2^53 and is sequential; every reply arm of ApplicationSession.onMessage "
+         "(PUBLISHED, SUBSCRIBED, UNSUBSCRIBED, REGISTERED, UNREGISTERED, RESULT incl. progressive, ERROR keyed by request "
+         "type and id) is proved against a whole-view frame over the six request tables and the future heap: the record "
+         "bearing (type, id) is consumed, only its future is completed and at most once (is_called guard => resolve's "
+         "precondition), every other record, table and future is unchanged, progressive results leave the call pending, a "
+         "reply matching nothing raises ProtocolError and consumes nothing.",
+    note="Trusted: z3, pyvc incl. its Boogie-style record heap (distinct allocations are distinct), txaio futures as "
+         "write-once cells, message objects as typed records (their parse/constructors belong to C03/C08), user callbacks "
+         "opaque. Not covered: the request-issuing side (publish/call/subscribe/register build and send exactly one "
+         "message with the fresh id) - message constructors are outside the modelled subset so far.",
+    technique="contract-based deductive verification: symbolic record heap + table frames, z3"),
+})
+
 PENDING_REASON = "contracts for this property are not yet discharged in this snapshot of /verif (build in progress, see DESIGN.md section 8); nothing is claimed"
 
 def main():
